@@ -6,7 +6,7 @@ SPEC = {
     'theorems': ['C17_created_group_chained', 'C17_created_group_checks', 'C17_created_fee_sufficient', 'C17_created_group_passes',
                  'C17_same_header_same_content', 'C17_member_first_detected', 'C17_tamper_detected_partial', 'C17_tamper_detected_refuted',
                  'C17_fee_rules', 'C17_fee_sum_exact', 'C17_decode_txs_encode', 'C17_tx_path_equiv',
-                 'C17_rebuilt_group_chained'],
+                 'C17_rebuilt_group_chained', 'C17_checksign_gate_weakens'],
     'allowed_axioms': [],
     'shard': 6,
     'rule': 'one case = one CreateTxGroup call (inputs, fee rate; result: error class or head fee + member digests) plus a list of '
